@@ -966,12 +966,19 @@ def check_fit(case, rec):
                 + ("likelihood not finite" if ok_par else "data outside the valid range (-shift, inf)"),
                 tags=dict(tags, kind="fit2_invalid_result"),
             )
-        require(
-            ll_end >= ll_start - 1e-9 * (1 + abs(ll_start)),
-            f"BoxCoxShift.fit (both parameters): log-likelihood {ll_end!r} at the result (lmbda={lam!r}, shift={sh!r}) "
-            f"is below the starting value {ll_start!r}",
-            dict(tags, kind="fit_worse_than_start"),
-        )
+        if not ll_end >= ll_start - 1e-9 * (1 + abs(ll_start)):
+            # the library's likelihood degenerates numerically far out (u**lmbda underflows,
+            # var = 0 -> +inf) and the optimiser runs there: same documented weakness
+            rec.label("fit2:worse_than_start")
+            if _known("O1_boxcoxshift_two_parameter_fit", case):
+                rec.exclude("O1_boxcoxshift_two_parameter_fit")
+                rec.nontrivial(False)
+                return
+            raise Violation(
+                f"BoxCoxShift.fit (both parameters): log-likelihood {ll_end!r} at the result (lmbda={lam!r}, "
+                f"shift={sh!r}) is below the starting value {ll_start!r}",
+                tags=dict(tags, kind="fit2_worse_than_start"),
+            )
         rec.label("fit2:moved" if (lam, sh) != (1.0, shift) else "fit2:stuck")
         rec.nontrivial((lam, sh) != (1.0, shift))
         return
@@ -1639,12 +1646,12 @@ def _g(direction):
 
 
 SUBS = [
-    Sub("roundtrip", _g("fwd"), check_maps, quick=4000, thorough=45000, shards_quick=2, shards_thorough=4),
-    Sub("inverse", _g("inv"), check_maps, quick=4000, thorough=45000, shards_quick=2, shards_thorough=4),
-    Sub("monotone", gen_monotone, check_monotone, quick=1600, thorough=15000, shards_quick=1, shards_thorough=3),
-    Sub("derivative", gen_derivative, check_derivative, quick=2000, thorough=24000, shards_quick=1, shards_thorough=3),
-    Sub("loglik", gen_loglik, check_loglik, quick=1600, thorough=16000, shards_quick=2, shards_thorough=4),
-    Sub("fit", gen_fit, check_fit, quick=450, thorough=6000, shards_quick=3, shards_thorough=6, shrink_quick=False),
-    Sub("pipe_tools", gen_pipe_tools, check_pipe_tools, quick=1600, thorough=16000, shards_quick=2, shards_thorough=4),
-    Sub("pipe_field", gen_pipe_field, check_pipe_field, quick=1000, thorough=12000, shards_quick=3, shards_thorough=6),
+    Sub("roundtrip", _g("fwd"), check_maps, quick=6000, thorough=90000, shards_quick=2, shards_thorough=4),
+    Sub("inverse", _g("inv"), check_maps, quick=6000, thorough=90000, shards_quick=2, shards_thorough=4),
+    Sub("monotone", gen_monotone, check_monotone, quick=2400, thorough=30000, shards_quick=1, shards_thorough=3),
+    Sub("derivative", gen_derivative, check_derivative, quick=3000, thorough=48000, shards_quick=1, shards_thorough=3),
+    Sub("loglik", gen_loglik, check_loglik, quick=2400, thorough=32000, shards_quick=2, shards_thorough=4),
+    Sub("fit", gen_fit, check_fit, quick=600, thorough=10000, shards_quick=3, shards_thorough=6, shrink_quick=False),
+    Sub("pipe_tools", gen_pipe_tools, check_pipe_tools, quick=2400, thorough=30000, shards_quick=2, shards_thorough=4),
+    Sub("pipe_field", gen_pipe_field, check_pipe_field, quick=1500, thorough=24000, shards_quick=3, shards_thorough=6),
 ]
